@@ -117,10 +117,14 @@ def sparql_service_available(endpoint: str) -> bool:
 
 
 def _handle_part(part: str) -> tuple[str, float]:
-    if ";q=" not in part:
-        return part, 1.0
-    key, q = part.split(";q=", 1)
-    return key, float(q)
+    # optional whitespace is allowed around "," and ";" (RFC 7231, section 5.3.2)
+    key, *parameters = (subpart.strip() for subpart in part.split(";"))
+    q = 1.0
+    for parameter in parameters:
+        name, _, value = parameter.partition("=")
+        if name.strip().lower() == "q":
+            q = float(value.strip())
+    return key, q
 
 
 def parse_header(header: str) -> list[str]:
